@@ -414,20 +414,37 @@ func genC20(r *hx.Rng, st *hx.Stats) c20spec {
 		sp.Env = append(sp.Env, hs(k+"="+v))
 	}
 	sp.NRT = 1 + r.Intn(3)
-	nops := r.Intn(7)
-	for i := 0; i < nops; i++ {
-		rt := r.Intn(sp.NRT)
-		var k string
+	nops := r.Intn(9)
+	nrt := sp.NRT
+	pickName := func() string {
 		if len(names) > 0 && r.Chance(60) {
-			k = names[r.Intn(len(names))]
-		} else {
-			k = genWord(r, nameAlphabet, 1, 4)
+			return names[r.Intn(len(names))]
 		}
-		if r.Chance(60) {
-			sp.Ops = append(sp.Ops, []string{fmt.Sprint(rt), "S", hs(k), hs(genWord(r, valAlphabet, 0, 4))})
+		return genWord(r, nameAlphabet, 1, 4)
+	}
+	for i := 0; i < nops; i++ {
+		switch x := r.Intn(100); {
+		case x < 14:
+			// the host changes its own environment: overwrite an existing variable (the number of entries stays
+			// the same), add one, or remove one
+			k := pickName()
+			for strings.Contains(k, "=") || k == "" {
+				k = genWord(r, nameAlphabet, 1, 4)
+			}
+			sp.Ops = append(sp.Ops, []string{"H", "S", hs(k), hs(genWord(r, valAlphabet, 0, 4))})
+			st.Hit("op:host-setenv")
+		case x < 22:
+			sp.Ops = append(sp.Ops, []string{"H", "D", hs(pickName())})
+			st.Hit("op:host-unsetenv")
+		case x < 36:
+			sp.Ops = append(sp.Ops, []string{"N"})
+			nrt++
+			st.Hit("op:new-runtime")
+		case x < 74:
+			sp.Ops = append(sp.Ops, []string{fmt.Sprint(r.Intn(nrt)), "S", hs(pickName()), hs(genWord(r, valAlphabet, 0, 4))})
 			st.Hit("op:set")
-		} else {
-			sp.Ops = append(sp.Ops, []string{fmt.Sprint(rt), "D", hs(k)})
+		default:
+			sp.Ops = append(sp.Ops, []string{fmt.Sprint(r.Intn(nrt)), "D", hs(pickName())})
 			st.Hit("op:delete")
 		}
 	}
@@ -472,6 +489,23 @@ func c20child(specPath string) {
 		vms = append(vms, vm)
 	}
 	for _, o := range sp.Ops {
+		switch {
+		case o[0] == "N":
+			vm := goja.New()
+			reg.Enable(vm)
+			process.Enable(vm)
+			vms = append(vms, vm)
+			continue
+		case o[0] == "H" && o[1] == "S":
+			if err := os.Setenv(unhex(o[2]), unhex(o[3])); err != nil {
+				fmt.Println("CHILD-ERROR setenv " + err.Error())
+				return
+			}
+			continue
+		case o[0] == "H":
+			os.Unsetenv(unhex(o[2]))
+			continue
+		}
 		var rt int
 		fmt.Sscan(o[0], &rt)
 		vm := vms[rt]
